@@ -9,6 +9,7 @@
 From stdpp Require Import gmap strings.
 From EV Require Import Base.Str Model.Value Model.Keyspace Model.Reply Model.Prog Model.Dispatch Model.RespWire.
 From EV Require Import Model.CmdList Model.CmdString Model.CmdHash Model.CmdSet Model.CmdZSet Model.CmdGeneric.
+From EV Require Model.CmdZRand Model.CmdKeyspace.
 From EV Require Import Proofs.RespWireProofs Proofs.WireProofs Proofs.WireReplies Proofs.WireRepliesAll.
 Local Open Scope Z_scope.
 
@@ -66,10 +67,12 @@ Proof. exact handler_typed_leaves. Qed.
 Print Assumptions C12_handlers_typed_leaves.
 
 (** The same for a handler run directly (embedded API, AOF / raft replay), from every state [s] in every
-    database [d], and for EVERY selection function [pick] standing for SPOP / SRANDMEMBER's random draw. *)
-Theorem C12_reply_wellformed_handlers : forall pick name h argv d s rest,
+    database [d], and for EVERY selection function [pick] / [zpick] standing for the random draw of SPOP /
+    SRANDMEMBER / ZRANDMEMBER and every random source [cands] of RANDOMKEY. *)
+Theorem C12_reply_wellformed_handlers : forall pick zpick cands name h argv d s rest,
   first_some [list_handler name; hash_handler name; set_handler pick name; zset_handler name;
-              generic_handler name; string_handler name] = Some h ->
+              generic_handler name; string_handler name;
+              CmdZRand.zrand_handler zpick name; CmdKeyspace.keyspace_handler cands name] = Some h ->
   let r := snd (run_seq d (h argv) s) in
   decode_strict (reply_bytes r +:+ rest) = DOk (reply_value r) rest.
 Proof. exact handler_reply_wellformed. Qed.
